@@ -87,6 +87,10 @@ pub assume_specification<T: Ord> [std::cmp::max] (a: T, b: T) -> (r: T)
 pub assume_specification<T: Ord> [std::cmp::min] (a: T, b: T) -> (r: T)
     ensures T::obeys_cmp_spec() ==> r == (if a.cmp_spec(&b) == core::cmp::Ordering::Greater { b } else { a });
 
+// ASSUMED(std): <[T]>::to_vec copies the slice (used with T = u8 only, whose Clone is a copy)
+pub assume_specification<T: Clone> [<[T]>::to_vec] (s: &[T]) -> (r: Vec<T>)
+    ensures r@ == s@;
+
 // ASSUMED(std): <[T]>::contains is membership (only used with T = usize, whose == is structural)
 pub assume_specification<T: PartialEq> [<[T]>::contains] (s: &[T], x: &T) -> (r: bool)
     ensures r == s@.contains(*x);
